@@ -24,7 +24,7 @@ ANALYSIS = "11"
 F70_CLASS = "static_opt_one_pass_budget1"
 F70_TEXT = ("class=static_opt_one_pass_budget1: at budget 1 a program whose pass-1 changes are all in statically known items assembles "
             "only with the static optimisation (same result in exactly 2 passes without it)")
-THEOREMS = ["C08b_matcher_scope_is_node_scope", "C08b_static_known_sound_state", "C08b_static_off_is_resolver2"]
+THEOREMS = ["C08b_matcher_scope_is_node_scope", "C08b_static_known_sound_state", "C08b_static_off_is_resolver2", "C08b_static_switch"]
 
 
 class RunnerS2:
